@@ -137,6 +137,25 @@ theorem C05_histories_across_pickling (F : Nat → LId → Option VId → Bool)
   exact runFromX_keeps (copyF r F) R' (ops2.take k) _ (inv_copy r _ flag hk h1.1)
     (C05_copy_cacheOK r hk.bij _ flag F h1.2)
 
+/-- consequence: at every point of every history continued in the loading interpreter, every
+    traversal and every search — all their `neighbors()` calls going through the memos, those that
+    crossed the boundary included — answers what the memo-free descriptions say -/
+theorem C05_unpickled_traversals_transparent (F : Nat → LId → Option VId → Bool)
+    (R R' : Nat → Option VId → Bool) (ops1 ops2 : List XOp) (flag : Bool)
+    (hk : r.Keeps (M.runX F R ops1).1) (ffr : Nat → Bool)
+    (kind : TO.TravKind) (uni : Option VId) (start : VId) (dir unk : Nat) (via : Option Nat)
+    (skind : TO.SearchKind) (attr val : Nat) :
+    let w' := (M.runFromX (copyF r F) R' ((M.runX F R ops1).1.copy r flag) ops2).1
+    (TS.traverse w' (copyF r F) ffr kind uni start dir unk via).2
+        = TO.traverse w' (copyF r F) ffr kind uni start dir unk via ∧
+    (TS.search w' (copyF r F) skind uni start attr val).2 = TO.search w' (copyF r F) skind uni start attr val := by
+  intro w'
+  have hk' : CacheOK (copyF r F) w' := by
+    have := (C05_histories_across_pickling r F R R' ops1 ops2 flag ops2.length hk).2
+    rwa [List.take_length] at this
+  exact ⟨C05_traversal_transparent (copyF r F) w' ffr kind uni start dir unk via hk',
+    C05_search_transparent (copyF r F) w' skind uni start attr val hk'⟩
+
 /-- non-vacuity: a warm memo crosses the boundary (vertices 0, 1 swapped by the renaming, caching
     switched OFF while loading and ON again later) and is found, renamed, in the copy -/
 example :
